@@ -80,6 +80,14 @@ def build_retry(r):
         s = stops[0]
         for x in stops[1:]:
             s = s | x
+        # composition with a user's PLAIN callable that is the neutral element of the operator (always true for &, never
+        # for |), on either side: the composed condition must behave exactly like the library condition alone
+        comp = r.get("compose")
+        if comp:
+            yes = lambda attempts, elapsed_time, **kw_: True      # noqa: E731
+            no = lambda attempts, elapsed_time, **kw_: False      # noqa: E731
+            s = {"custom_and": lambda: yes & s, "and_custom": lambda: s & yes,
+                 "custom_or": lambda: no | s, "or_custom": lambda: s | no}[comp]()
         kw["stop"] = s
     w = r.get("wait")
     if w:
@@ -96,7 +104,14 @@ def build_retry(r):
         elif kind == "incr":
             kw["wait"] = wait_incrementing(start=w[1], increment=w[2], max=w[3])
     if r.get("retry_on"):
-        kw["retry"] = retry_if_exception_type(tuple(EXC[x] for x in r["retry_on"]))
+        rc = retry_if_exception_type(tuple(EXC[x] for x in r["retry_on"]))
+        comp = r.get("compose")
+        if comp:
+            ryes = lambda error: True       # noqa: E731
+            rno = lambda error: False       # noqa: E731
+            rc = {"custom_and": lambda: ryes & rc, "and_custom": lambda: rc & ryes,
+                  "custom_or": lambda: rno | rc, "or_custom": lambda: rc | rno}[comp]()
+        kw["retry"] = rc
     return mk_retry_policy(**kw)
 
 
